@@ -173,6 +173,12 @@ func judge(sp *Spec, res *result) (out []finding, decided []string) {
 	if stopped {
 		decided = append(decided, "nothing-after-"+sp.Stop.How)
 		for _, c := range res.Calls {
+			if sp.Stop.InFetch && c.Op == "G" && c.Err == "" && c.Seq0 < res.StopSeq0 && c.Seq1 > res.StopSeq1 {
+				// the stop was issued (and had returned) inside this very call, from the page request it made
+				add("GetNext", "during-"+sp.Stop.How+"-issued-from-its-own-page-request", "yielded-after-stop",
+					fmt.Sprintf("%s was issued and had returned inside the request for page %d made by this GetNext, which still yielded item %d", sp.Stop.How, sp.Stop.InFetchPage, c.Item))
+				break
+			}
 			if c.Op == "G" && c.Err == "" && c.Seq0 > res.StopSeq1 {
 				add("GetNext", "after-"+sp.Stop.How, "yielded-after-stop",
 					fmt.Sprintf("GetNext started after %s had returned and still yielded item %d", sp.Stop.How, c.Item))
